@@ -363,6 +363,10 @@ impl std::cmp::PartialEq for BitPage {
 
 impl std::cmp::Eq for BitPage {}
 
+#[cfg(googlefonts_fontations_verif)]
+#[path = "/verif/harness/incrate/bitpage.rs"]
+mod verif_harness;
+
 #[cfg(test)]
 mod test {
     use std::collections::HashSet;
